@@ -28,6 +28,7 @@ package main
 import (
 	"bytes"
 	"context"
+	"crypto/sha256"
 	"encoding/hex"
 	"encoding/json"
 	"fmt"
@@ -239,6 +240,28 @@ func hasInnerGate(m string) bool {
 
 var uncloneable int
 
+// verifyMemo: a direct tbls.Verify call, remembered (the same triple is judged for the model's facts
+// and again for every subscriber that received the partial).
+var verifyMemoTab = map[[32]byte]bool{}
+
+func verifyMemo(key tbls.PublicKey, sr [32]byte, sig [96]byte) bool {
+	h := sha256.New()
+	h.Write(key[:])
+	h.Write(sr[:])
+	h.Write(sig[:])
+	var k [32]byte
+	copy(k[:], h.Sum(nil))
+	if r, ok := verifyMemoTab[k]; ok {
+		return r
+	}
+	if len(verifyMemoTab) > 20000 {
+		verifyMemoTab = map[[32]byte]bool{}
+	}
+	r := tbls.Verify(key, sr[:], tbls.Signature(sig)) == nil
+	verifyMemoTab[k] = r
+	return r
+}
+
 type itemInfo struct {
 	abs      string
 	valid    bool
@@ -381,7 +404,7 @@ func (e *episode) itemOf(rt *route, s *sample, node int, facts map[string]bool) 
 	if valPk != nil {
 		if key, ok := cl.pubshares[*valPk][node]; ok && v.dom >= 0 && v.epoch != nil && v.root != nil && v.sig != ([96]byte{}) {
 			sr := signingRoot(v.dom, *v.epoch, *v.root)
-			if tbls.Verify(key, sr[:], tbls.Signature(v.sig)) == nil {
+			if verifyMemo(key, sr, v.sig) {
 				verified = true
 				facts[fmt.Sprintf("%d.%d.%d.%d.%d", e.keyIDs[key], v.dom, *v.epoch, e.rootID(*v.root), e.sigID(v.sig))] = true
 			}
@@ -787,7 +810,7 @@ func (e *episode) monitorDelivered(run *hx.Run, calls []obsCall, node int, infos
 			valid := false
 			if known && okShare && v.dom >= 0 && v.epoch != nil && v.root != nil && v.sig != ([96]byte{}) {
 				sr := signingRoot(v.dom, *v.epoch, *v.root)
-				valid = tbls.Verify(key, sr[:], tbls.Signature(v.sig)) == nil
+				valid = verifyMemo(key, sr, v.sig)
 			}
 			if !valid {
 				if e.factsFor(v, map[string]bool{}) != nil {
@@ -937,7 +960,7 @@ func (e *episode) execPb(run *hx.Run, o pbOp) {
 		if valPk != nil {
 			if key, ok := cl.pubshares[*valPk][o.node]; ok && v.sig != ([96]byte{}) {
 				sr := signingRoot(v.dom, *v.epoch, *v.root)
-				if tbls.Verify(key, sr[:], tbls.Signature(v.sig)) == nil {
+				if verifyMemo(key, sr, v.sig) {
 					verified = true
 					facts[fmt.Sprintf("%d.%d.%d.%d.%d", e.keyIDs[key], v.dom, *v.epoch, e.rootID(*v.root), e.sigID(v.sig))] = true
 				}
